@@ -232,12 +232,13 @@ theorem parseRow_body (kind : Kind) (p : PatchEntry) (h : WFEntry kind p = true)
     simp [l1, l2, l3, carried, hsplit]
 
 theorem parseRows_bodies (kind : Kind) (ps : List PatchEntry) (h : ∀ p ∈ ps, WFEntry kind p = true) :
-    parseRows kind (ps.map (rowBody kind)) = some (ps.map (carried kind)) := by
+    parseRows kind (ps.map (rowBody kind)) = ps.map (carried kind) := by
   induction ps with
   | nil => rfl
   | cons p ps ih =>
-    simp only [List.map_cons, parseRows, parseRow_body kind p (h p (by simp)),
-      ih (fun x hx => h x (by simp [hx]))]
+    have := ih (fun x hx => h x (by simp [hx]))
+    simp only [parseRows] at this ⊢
+    simp only [List.map_cons, List.filterMap_cons, parseRow_body kind p (h p (by simp)), this]
 
 /-! ### reader: the whole text -/
 
@@ -322,11 +323,7 @@ theorem fromString_encode (kind : Kind) (pl : PatchList) (h : WF kind pl = true)
     simp [textLines]
   simp only [fromString, hpl, hsplit, hparts]
   rw [take_drop_rows _ _ _ rfl rfl]
-  have hlen : ¬ ([sDashes ++ pl.id, sContentType, sContentLocation ++ pl.contentLocation,
-        sPatchLength ++ showInt (totalLength pl.patches), ([] : Bytes)] ++
-      (pl.patches.map (rowBody kind) ++ [sDashes ++ (pl.id ++ sDashes), []])).length < 2 := by
-    simp
-  simp only [hlen, ↓reduceIte, parseRows_bodies kind _ (wf_entries h), decoded]
+  simp only [parseRows_bodies kind _ (wf_entries h), decoded]
 
 /-- write → read round trip -/
 theorem roundtrip (kind : Kind) (pl : PatchList) (h : WF kind pl = true) :
